@@ -255,7 +255,7 @@ def classify(case, msg):
     for target, stages in found:
         for s in stages.split(","):
             ids.append(FINDINGS.get(s))
-    if ids and all(ids):
+    if ids and all(ids) and all(i in c29.open_finding_ids(PID) for i in ids):
         return sorted(ids)[0]
     return None
 
